@@ -24,6 +24,7 @@ from vgi_rpc.external import (
 )
 from vgi_rpc.log import Level, Message
 from vgi_rpc.metadata import (
+    ERROR_KIND_KEY,
     LOG_EXTRA_KEY,
     LOG_LEVEL_KEY,
     LOG_MESSAGE_KEY,
@@ -627,7 +628,13 @@ def _dispatch_log_or_error(
     if level_str == Level.EXCEPTION.value:
         error_type = str(raw_extra_data.get("exception_type", level_str))
         traceback_str = str(raw_extra_data.get("traceback", ""))
-        raise RpcError(error_type, message_str, traceback_str, request_id=request_id)
+        # The typed-error token travels as top-level metadata (and, from this
+        # implementation, inside log_extra as well); expose it to the caller.
+        kind_bytes = custom_metadata.get(ERROR_KIND_KEY)
+        error_kind = kind_bytes.decode(errors="replace") if kind_bytes is not None else ""
+        if not error_kind and isinstance(raw_extra_data.get("error_kind"), str):
+            error_kind = str(raw_extra_data["error_kind"])
+        raise RpcError(error_type, message_str, traceback_str, request_id=request_id, error_kind=error_kind)
 
     # Non-exception log message → invoke callback
     # Coerce all extra values to str for Message(**extra)
